@@ -15,22 +15,25 @@ type JSONMessage map[rscp.Tag]interface{}
 
 func NewJSONMergedMessages(messages []rscp.Message) JSONMessage {
 	jm := JSONMessage{}
-	var arrVal []JSONMessage
 	for _, message := range messages {
-		if messages, isContainer := message.Value.([]rscp.Message); isContainer {
-			if _, exists := jm[message.Tag]; exists && arrVal == nil {
-				arrVal = []JSONMessage{jm[message.Tag].(JSONMessage)}
-			}
-			if arrVal != nil {
-				arrVal = append(arrVal, NewJSONMergedMessages(messages))
-			} else {
-				jm[message.Tag] = NewJSONMergedMessages(messages)
-			}
-			if arrVal != nil {
-				jm[message.Tag] = arrVal
+		if children, isContainer := message.Value.([]rscp.Message); isContainer {
+			merged := NewJSONMergedMessages(children)
+			// containers repeated under the same tag are collected in an array, in order of arrival
+			switch existing := jm[message.Tag].(type) {
+			case JSONMessage:
+				jm[message.Tag] = []JSONMessage{existing, merged}
+			case []JSONMessage:
+				jm[message.Tag] = append(existing, merged)
+			default:
+				jm[message.Tag] = merged
 			}
 		} else {
-			jm[message.Tag] = message.Value
+			// a scalar never replaces container data that arrived under the same tag
+			switch jm[message.Tag].(type) {
+			case JSONMessage, []JSONMessage:
+			default:
+				jm[message.Tag] = message.Value
+			}
 		}
 	}
 	return jm
